@@ -55,8 +55,10 @@ Definition run_lop (data : list json) (o : lop) : otree * list json :=
   | LPop i => match dl_pop json json idj data i with
               | Ok (x, l) => (ON "pop" [lval x], l) | Exn e => (ON "pop" [ON "raise" [oexn e]], data) end
   | LIter => (ON "iter" (map lval (dl_iter json json idj data)), data)
-  | LKeep p => (ON "keep" [ON "calls" (map lval data)], keep_all json json idj idj (lp_eval p) data)
-  | LRemove p => (ON "keep" [ON "calls" (map lval data)], remove_all json json idj idj (lp_eval p) data)
+  | LKeep p => (ON "keep" [ON "calls" (map lval (keep_calls json json idj idj (lp_eval p) data))],
+                keep_all json json idj idj (lp_eval p) data)
+  | LRemove p => (ON "keep" [ON "calls" (map lval (keep_calls json json idj idj (fun x => negb (lp_eval p x)) data))],
+                  remove_all json json idj idj (lp_eval p) data)
   end.
 
 Fixpoint run_lops (id : nat) (data : list json) (os : list lop) : list otree :=
